@@ -17,6 +17,7 @@ import os
 
 import vlib
 
+ALL_CN = ("no", "sec", "half", "insec")
 KEEP = {"Cfg", "Msg", "Lookup", "SrvConn", "SrvData", "Ret", "End"}
 
 CFG = """SPECIFICATION %(spec)s
@@ -33,6 +34,7 @@ CONSTANTS
   MaxMsgs = %(maxmsgs)d
   WithDNSFail = %(dnsfail)s
   SlowSet = {%(slow)s}
+  CnSet = {%(cn)s}
   Devs = {%(devs)s}
   Gen = %(gen)s
 %(tail)s
@@ -49,11 +51,11 @@ def q(xs):
 
 def cfg(spec="Spec", polsets="AllPolSets", mintls=(0, 1, 2), minmx=(0, 1, 2), override=("TRUE", "FALSE"),
         sts=("none", "testing", "enforce"), stlscert="AllStlsCert", tlsa="AllTlsa", nmx=(1,), kinds="Kinds4",
-        maxmsgs=3, dnsfail=True, slow=("FALSE",), devs=(), gen=False, tail=MC_TAIL):
+        maxmsgs=3, dnsfail=True, slow=("FALSE",), cn=("no",), devs=(), gen=False, tail=MC_TAIL):
     return CFG % dict(spec=spec, polsets=polsets, mintls=", ".join(map(str, mintls)),
                       minmx=", ".join(map(str, minmx)), override=", ".join(override), sts=q(sts),
                       stlscert=stlscert, tlsa=tlsa, nmx=", ".join(map(str, nmx)), kinds=kinds,
-                      maxmsgs=maxmsgs, dnsfail="TRUE" if dnsfail else "FALSE", slow=", ".join(slow), devs=q(devs),
+                      maxmsgs=maxmsgs, dnsfail="TRUE" if dnsfail else "FALSE", slow=", ".join(slow), cn=q(cn), devs=q(devs),
                       gen="TRUE" if gen else "FALSE", tail=tail)
 
 
@@ -89,7 +91,7 @@ def nontrivial(b):
     c = b["cfg"]
     return bool(c["pols"]) and (any(m["reqtls"] or m["tlsno"] or m["quar"] for m in b["msgs"]) or
                                 any(f["stls"] != "offered" or f["cert"] != "valid" or
-                                    f["tlsa"] not in ("insecure", "none") for f in c["mx"]))
+                                    f["tlsa"] not in ("insecure", "none") or f.get("cn", "no") != "no" for f in c["mx"]))
 
 
 def run(ctx, replay):
@@ -112,6 +114,10 @@ def run(ctx, replay):
                     ("mc2", cfg(nmx=(2,), mintls=(0, 2), minmx=(0, 1), override=("TRUE",), sts=("none", "enforce"),
                                 stlscert="QuickStlsCert", tlsa="QuickTlsa", maxmsgs=3, dnsfail=False,
                                 slow=("TRUE", "FALSE")))]
+        # TLSA discovery through a CNAME (RFC 7672 2.2.2): canonical name x original name outcomes
+        runs.append(("mc-cname", cfg(polsets="DaneOnly", mintls=(0, 1, 2), minmx=(0,), override=("TRUE",),
+                                     stlscert="QuickStlsCert", tlsa="AllTlsa" if thorough else "CnameTlsa", nmx=(1,),
+                                     kinds="Kinds3", maxmsgs=2, dnsfail=False, cn=ALL_CN)))
         states = trans = depth = 0
         for name, text in runs:
             r = ctx.tlc_expect_ok("Remote", None, name=name, workers=w, timeout=3000, cfg_text=text, heap="5g")
@@ -156,6 +162,10 @@ def run(ctx, replay):
                  ("gen-slow", cfg(polsets="DaneStsLocal", mintls=(0,), minmx=(1,), override=("TRUE",), sts=("testing",),
                                   stlscert="TwoStlsCert", tlsa="QuickTlsa", nmx=(2,), kinds="Kinds1", maxmsgs=1,
                                   dnsfail=False, slow=("TRUE",), gen=True, tail=GEN_TAIL))]
+        # every CNAME situation x TLSA outcome at the canonical and at the original name
+        focus += [("gen-cname", cfg(polsets="DaneOnly", mintls=(0,), minmx=(0,), override=("TRUE",),
+                                    stlscert="TwoStlsCert", tlsa="AllTlsa" if thorough else "CnameTlsa", nmx=(1,),
+                                    kinds="Kinds1", maxmsgs=1, dnsfail=False, cn=ALL_CN, gen=True, tail=GEN_TAIL))]
         if thorough:
             focus += [("gen-slow3", cfg(polsets="DaneStsLocal", mintls=(0,), minmx=(1,), override=("TRUE",),
                                         sts=("testing",), stlscert="QuickStlsCert", tlsa="SmallTlsa", nmx=(2,),
@@ -173,7 +183,8 @@ def run(ctx, replay):
                 got = vlib.sample(ctx.rng, got, 15000)     # replayed sample of the complete enumeration
             behs += got
         n1, n2 = (6000, 6000) if thorough else (450, 450)
-        sims = [("sim1", n1, cfg(nmx=(1,), kinds="Kinds5", gen=True, tail=GEN_TAIL)),
+        sims = [("sim1", n1, cfg(nmx=(1,), kinds="Kinds5", tlsa="SmallTlsa", cn=ALL_CN, gen=True, tail=GEN_TAIL)),
+                ("sim1b", n1 // 2, cfg(nmx=(1,), kinds="Kinds5", gen=True, tail=GEN_TAIL)),
                 ("sim2", n2, cfg(nmx=(2,), stlscert="SmallStlsCert", tlsa="SmallTlsa", kinds="Kinds4",
                                  dnsfail=False, slow=("TRUE", "FALSE"), gen=True, tail=GEN_TAIL))]
         for name, n, text in sims:
@@ -216,7 +227,7 @@ def run(ctx, replay):
             selftest = {900001: "corrupt-field", 900002: "drop-event"}
 
     verdicts, by_t = ctx.validate("RemoteTrace", None, events, keep=KEEP,
-                                  cfg_text=cfg(spec="TSpec", nmx=(1, 2), kinds="Kinds5", slow=("TRUE", "FALSE"),
+                                  cfg_text=cfg(spec="TSpec", nmx=(1, 2), kinds="Kinds5", slow=("TRUE", "FALSE"), cn=ALL_CN,
                                                devs=open_devs, tail=TRACE_TAIL))
 
     ok = drift = 0
